@@ -416,7 +416,7 @@ def run(ctx):
                 kinds[r['part'] + ':' + k] += v
             if ctx.expired():
                 ctx.incomplete('deadline hit after %d of %d tasks' % (done, len(tasks)))
-                pool.pool.terminate()
+                pool.cancel()
                 break
     finally:
         pool.close()
